@@ -5,7 +5,7 @@ set -e
 cd "$(dirname "$0")/.."
 export CARGO_NET_OFFLINE=true
 mkdir -p work evidence replays
-(cd harness && cargo build --offline --quiet 2>&1 | tail -5)
+(cd harness && cargo build --offline --quiet --bin vh 2>&1 | tail -5)
 test -x harness/target/debug/vh
 java -cp /opt/veriftools/tla/tla2tools.jar tlc2.TLC -h >/dev/null 2>&1 || true
 echo "setup ok"
